@@ -540,7 +540,7 @@ func TestVerif_C09(t *testing.T) {
 	stride := pick(r, 9, 1)
 	nRand := pick(r, 200, 1500)
 	r.Parallel(len(prod), func(l *Local) {
-		if (l.Batch+int(r.Seed))%stride != 0 {
+		if !r.visit(l.Batch, stride) {
 			return
 		}
 		c := prod[l.Batch]
